@@ -271,6 +271,7 @@ impl Compiler {
                     let rest_arr = self.builder.alloc_register()?;
                     self.builder.emit(Op::CreateRestArray {
                         dst: rest_arr,
+                        iterator: iter_reg,
                         start_index: i as u8,
                     });
                     self.compile_pattern_binding(&rest.argument, rest_arr, mutable, is_var)?;
@@ -526,6 +527,7 @@ impl Compiler {
                     let rest_arr = self.builder.alloc_register()?;
                     self.builder.emit(Op::CreateRestArray {
                         dst: rest_arr,
+                        iterator: iter_reg,
                         start_index: i as u8,
                     });
                     self.compile_pattern_assignment(&rest.argument, rest_arr)?;
